@@ -31,7 +31,7 @@ func vBuildInput(docs []index.Document, mode uint32, reopen bool, path string) s
 func vMergeCfg(prefix, idBase string, nDocs int, second bool, focus string) gCfg {
 	var fields []gField
 	if focus == "stored" {
-		fields = []gField{{name: "f", terms: []string{"a"}, allTerm: true, fixFreq: true, store: true}}
+		fields = []gField{{name: "f", terms: []string{"a"}, allTerm: true, fixFreq: true, store: true, multi: vParam("maxOcc", 1) > 1, maxOcc: vParam("maxOcc", 1)}}
 		if second {
 			fields = append(fields, gField{name: "g", terms: []string{"a"}, allTerm: true, fixFreq: true, store: true})
 		}
